@@ -137,6 +137,19 @@ func c10Catalogue() []c10Offence {
 			// otherwise (nothing before, or stream 1 still open) it is simply more traffic and the scenario degenerates
 			return raw(wire.TData, 0, 1, []byte("late data on the first stream"))
 		}},
+		{"compression-error-behind-a-malformed-field", []uint32{eCompress}, func(rng *rand.Rand, p *rt.Peer, next, open uint32) []byte {
+			// the block first earns a stream error (an upper-case name, a connection-specific field, a late pseudo-header)
+			// and then stops decoding: the connection-scoped error must not get lost behind the stream-scoped one
+			bad := []F{{Name: "X-Upper", Value: "v"}, {Name: "connection", Value: "close"}, {Name: ":path", Value: "/late"}}[rng.Intn(3)]
+			blk := p.EncodeBlock([]F{{Name: ":method", Value: "GET"}, {Name: ":scheme", Value: "https"}, {Name: ":path", Value: "/c"}, {Name: ":authority", Value: "c.example"}, {Name: "x-ok", Value: "1"}, bad, {Name: "x-after", Value: "2"}}, nil)
+			tail := [][]byte{{0x80}, {0xff, 0xff, 0xff, 0xff, 0xff, 0xff, 0xff, 0xff, 0xff, 0xff, 0xff, 0x01}, {0xbf, 0x7f}, {0x00, 0x85, 'a'}}[rng.Intn(4)]
+			blk = append(blk, tail...)
+			if rng.Intn(2) == 0 {
+				cut := 1 + rng.Intn(len(blk)-1)
+				return rt.Concat(rt.HeaderFrames(next, blk, []int{cut}, -1, nil, true))
+			}
+			return raw(wire.THeaders, wire.FEndHeaders|wire.FEndStream, next, blk)
+		}},
 		{"undecodable-header-block", []uint32{eCompress}, func(rng *rand.Rand, p *rt.Peer, next, open uint32) []byte {
 			bad := [][]byte{{0x80}, {0xff, 0xff, 0xff, 0xff, 0xff, 0xff, 0xff, 0xff, 0xff, 0xff, 0xff, 0x01}, {0xbf, 0x7f}, {0x00, 0x85, 'a'}, {0x3f, 0xe1, 0xff, 0x7f}}[rng.Intn(5)]
 			return raw(wire.THeaders, wire.FEndHeaders|wire.FEndStream, next, bad)
@@ -167,6 +180,8 @@ func TestC10(t *testing.T) {
 func c10Scenario(r *vf.Run, t *testing.T, id string, rng *rand.Rand, cat []c10Offence) {
 	off := cat[rng.Intn(len(cat))]
 	idle := rng.Intn(12) == 0 // idle-timeout shutdown instead of an offence
+	highOffenceID := rng.Intn(4) == 0
+	preStall := rng.Intn(8) == 0 && !idle // the peer has stopped reading, and the server's output is backed up, before the offence arrives
 	nBefore := rng.Intn(7)
 	nAfter := rng.Intn(7)
 	trailing := rng.Intn(4) // 0 silent, 1 flood, 2 stops reading + flood, 3 disconnect
@@ -184,7 +199,7 @@ func c10Scenario(r *vf.Run, t *testing.T, id string, rng *rand.Rand, cat []c10Of
 		}
 	}
 	var triggers []string
-	replay := map[string]any{"offence": off.Name, "idle_timeout_instead": idle, "before": states, "after": nAfter, "trailing": trailing}
+	replay := map[string]any{"offence": off.Name, "offence_on_high_idle_id": highOffenceID, "peer_stopped_reading_before": preStall, "idle_timeout_instead": idle, "before": states, "after": nAfter, "trailing": trailing}
 	failed := false
 	fail := func(rule, detail string) {
 		if !failed {
@@ -195,6 +210,9 @@ func c10Scenario(r *vf.Run, t *testing.T, id string, rng *rand.Rand, cat []c10Of
 	bufToPeer := 4 << 20
 	if trailing == 2 {
 		bufToPeer = 64 << 10
+	}
+	if preStall {
+		bufToPeer = 64
 	}
 	res := rt.RunBubble(t, id, 60*time.Second, func() {
 		so := rt.ServerOpts{BufToPeer: bufToPeer}
@@ -234,12 +252,30 @@ func c10Scenario(r *vf.Run, t *testing.T, id string, rng *rand.Rand, cat []c10Of
 		if nBefore == 0 {
 			highestBefore = 0
 		}
+		if preStall && !idle {
+			// nobody drains the server's output any more (64 bytes of transport); a few dozen PINGs leave acknowledgements
+			// in the write queue (which holds 128, so the read loop is not held up and does read the offence): the
+			// GOAWAY for the offence has to queue behind frames that cannot go out
+			e.P.StopReading()
+			var flood []byte
+			for i := 0; i < 20+rng.Intn(40); i++ {
+				flood = append(flood, rt.Ping(false, fmt.Sprintf("p%07d", i))...)
+			}
+			e.P.Write(flood)
+			rt.Wait()
+		}
 		// the offence (or the idle timeout), immediately followed by more requests
 		var burst []byte
 		if idle {
 			time.Sleep(5*time.Second - time.Millisecond)
 		} else {
-			burst = off.Build(rng, e.P, next, openIncomplete)
+			offID := next
+			if highOffenceID {
+				// the offending frame names an idle stream well above everything opened so far; the requests that
+				// follow use the ids in between: after a connection error none of them may be dispatched either
+				offID = next + 20 + 2*uint32(rng.Intn(10))
+			}
+			burst = off.Build(rng, e.P, offID, openIncomplete)
 			next += 4
 		}
 		for i := 0; i < nAfter; i++ {
@@ -248,7 +284,7 @@ func c10Scenario(r *vf.Run, t *testing.T, id string, rng *rand.Rand, cat []c10Of
 			sent[next] = tag
 			next += 2
 		}
-		e.P.Write(burst)
+		e.P.Write(burst) // 4 MiB towards the server: never blocks, and stays ahead of whatever the peer sends next
 		if idle {
 			time.Sleep(2 * time.Millisecond)
 		}
@@ -344,7 +380,7 @@ func c10Scenario(r *vf.Run, t *testing.T, id string, rng *rand.Rand, cat []c10Of
 			}
 		}
 		done, _ := e.P.ReadState()
-		if !idle && !sawGoAway && !done && trailing != 2 && !returned {
+		if !idle && !sawGoAway && !done && trailing != 2 && !preStall && !returned {
 			fail("connection-error-ignored", fmt.Sprintf("offence %s: no GOAWAY, the connection is still open and being served; frames:%s", off.Name, frameSummary(fs[3:])))
 		}
 		if !returned {
@@ -360,7 +396,7 @@ func c10Scenario(r *vf.Run, t *testing.T, id string, rng *rand.Rand, cat []c10Of
 	})
 	c01Outcome(r, id, res, triggers, replay, "C10")
 	r.Mark("offences", off.Name)
-	r.Eval(vf.Hash(off.Name, idle, states, nAfter, trailing), true)
+	r.Eval(vf.Hash(off.Name, idle, states, nAfter, trailing, highOffenceID, preStall), true)
 	if r.WantSample() {
 		r.Sample(replay)
 	}
